@@ -57,7 +57,8 @@ pub(crate) fn pad_data_capacity(length_array: &Int64Array) -> usize {
     length_array
         .iter()
         .flatten()
-        .fold(0, |acc, len| acc.saturating_add(len as usize))
+        // a negative target length pads nothing
+        .fold(0, |acc, len| acc.saturating_add(usize::try_from(len).unwrap_or(0)))
 }
 
 /// A trait for `left` and `right` byte slicing operations
